@@ -219,8 +219,8 @@ class SetV:
 
 class ZSet:
     """HashSet<i32> as a z3 array i32 -> Bool (arbitrary, possibly infinite content)"""
-    def __init__(self, arr):
-        self.arr = arr; self.hits = 0
+    def __init__(self, arr, K=4):
+        self.arr = arr; self.hits = 0; self.K = K; self.removed = []; self.old = arr
 
 
 UNIT = Tup()
